@@ -360,13 +360,151 @@ impl SubCheckT for Expr {
     }
 }
 
+// ---------------------------------------------------------------------------
+// CNFs over many variables (labels up to 200, crossing 32 / 64 / 128): no truth table, assignments instead
+// ---------------------------------------------------------------------------
+
+#[derive(Clone, Debug, Serialize, Deserialize)]
+pub struct BigCnfCase {
+    pub clauses: Vec<Vec<(u8, bool)>>,
+    pub seed: u64,
+    /// vtree built by the library's own constructors: 0 right_linear, 1 left_linear, 2 even_split(.., 2), 3 even_split(.., 5)
+    pub vtree_kind: u8,
+    pub partial: Vec<(u8, bool)>,
+}
+
+pub struct CnfLarge;
+
+pub fn run_cnf_large(case: &BigCnfCase, st: &mut Stats) -> CaseResult {
+    use crate::big::*;
+    let clauses: Vec<Clause> = case.clauses.iter().map(|c| c.iter().map(|(v, p)| (*v as usize, *p)).collect()).collect();
+    let lits: Vec<Vec<rsdd::repr::Literal>> = clauses.iter().map(|c| c.iter().map(|(v, p)| rsdd::repr::Literal::new(VarLabel::new_usize(*v), *p)).collect()).collect();
+    let cnf = Cnf::new(&lits);
+    let n = cnf.num_vars();
+    if n == 0 {
+        return Ok(());
+    }
+    let order: Vec<usize> = if case.seed & 3 == 0 { (0..n).collect() } else { permutation(case.seed, n) };
+    let labels: Vec<VarLabel> = order.iter().map(|v| VarLabel::new_usize(*v)).collect();
+    // the assignments every diagram is read on: pseudo-random ones, and for every clause some that falsify exactly
+    // that clause's literals (a compiler that loses or weakens a clause is wrongly true there)
+    let mut probes: Vec<Vec<bool>> = (0..48).map(|k| assignment(case.seed, k, n)).collect();
+    for (ci, c) in clauses.iter().enumerate().take(40) {
+        for k in 0..3 {
+            probes.push(falsifying(case.seed, (ci * 8 + k) as u64, n, c));
+        }
+    }
+    let mut models_seen = 0;
+    let mut check = |what: &str, f: &dyn Fn(&[bool]) -> bool| -> CaseResult {
+        for a in probes.iter() {
+            let want = cnf_eval(&clauses, a);
+            if want {
+                models_seen += 1;
+            }
+            ensure!(
+                f(a) == want,
+                format!("C05/large-cnf-{}-wrong-function", what),
+                "{} of the CNF {:?} ({} variables, order seed {}) is {} on an assignment where the CNF is {} (true variables: {:?})",
+                what,
+                case.clauses,
+                n,
+                case.seed,
+                !want,
+                want,
+                a.iter().enumerate().filter(|(_, b)| **b).map(|(i, _)| i).collect::<Vec<_>>()
+            );
+        }
+        Ok(())
+    };
+    let b = RobddBuilder::<rsdd::builder::cache::AllIteTable<BddPtr>>::new(VarOrder::new(&labels));
+    let r = b.compile_cnf(&cnf);
+    check("bdd", &|a| bdd_eval(r, a))?;
+    // compile under a partial assignment = compile, then condition (same diagram), and the right function
+    let mut pmv: Vec<Option<bool>> = vec![None; n];
+    for (v, val) in case.partial.iter() {
+        pmv[(*v as usize) % n] = Some(*val);
+    }
+    let pm = PartialModel::from_assignments(&pmv);
+    let under = b.compile_cnf_with_assignments(&cnf, &pm);
+    let cond = b.condition_model(r, &pm);
+    ensure!(
+        under == cond,
+        "C05/compile-under-assignment-differs-from-compile-then-condition",
+        "large CNF {:?}: compiling under {:?} and compiling then conditioning give different diagrams",
+        case.clauses,
+        case.partial
+    );
+    for a in probes.iter() {
+        let mut a2 = a.clone();
+        for (v, x) in pmv.iter().enumerate() {
+            if let Some(val) = x {
+                a2[v] = *val;
+            }
+        }
+        ensure!(
+            bdd_eval(under, a) == cnf_eval(&clauses, &a2),
+            "C05/compile-under-assignment-wrong-function",
+            "large CNF {:?} compiled under {:?}: wrong value on an assignment",
+            case.clauses,
+            case.partial
+        );
+    }
+    // SDD over a vtree made by the library's own constructors from the same order
+    // SDDs over deep vtrees blow up quickly (and the library's structural node comparison is exponential in the
+    // nesting depth): left-linear vtrees only for tiny inputs; time is never a verdict
+    let occurrences: usize = clauses.iter().map(|c| c.len()).sum();
+    let vt = match case.vtree_kind % 4 {
+        0 => VTree::right_linear(&labels),
+        1 if occurrences <= 8 => VTree::left_linear(&labels),
+        // even_split panics when a part becomes empty: only with enough leaves for every split
+        2 if n >= 8 => VTree::even_split(&labels, 2),
+        3 if n >= 64 => VTree::even_split(&labels, 5),
+        _ => VTree::right_linear(&labels),
+    };
+    let sb = CompressionSddBuilder::new(vt);
+    let sr = sb.compile_cnf(&cnf);
+    check("sdd", &|a| sdd_eval(sr, a))?;
+    st.flag("large.label_at_or_above_64", clauses.iter().flatten().any(|(v, _)| *v >= 64));
+    st.flag("large.label_at_or_above_128", clauses.iter().flatten().any(|(v, _)| *v >= 128));
+    st.flag("large.two_labels_congruent_mod_64_in_one_clause", clauses.iter().any(|c| c.iter().any(|(v, _)| c.iter().any(|(w, _)| v != w && v % 64 == w % 64))));
+    st.bump(&format!("large.vtree_kind.{}", case.vtree_kind % 4));
+    if n >= 33 && clauses.len() >= 2 && models_seen >= 1 {
+        st.mark_nontrivial();
+    }
+    Ok(())
+}
+
+impl SubCheckT for CnfLarge {
+    type Case = BigCnfCase;
+    const NAME: &'static str = "cnf_many_variables";
+    const RULE: &'static str = "CNFs of 1..10 clauses (1..4 literals) whose labels are a small base plus an offset from {0, 32, 64, 128, 190} (so that 32-, 64- and 128-boundaries are crossed and labels congruent modulo 64 meet in one clause), compiled by the BDD builder under a linear or pseudo-random order over all num_vars variables and by the SDD builder over a vtree made by the library's own right_linear / left_linear / even_split: each diagram is evaluated by the harness's own walk on 48 pseudo-random assignments and on 3 assignments per clause that falsify exactly that clause, against direct evaluation of the clause list; compile_cnf_with_assignments = compile then condition_model (same node) and the right function. Non-trivial: >= 33 variables, >= 2 clauses and at least one probed model";
+    fn cases(tier: Tier) -> u32 {
+        tier.pick(1200, 30_000)
+    }
+    fn strategy(_tier: Tier) -> BoxedStrategy<BigCnfCase> {
+        let lit = (0u8..10, prop_oneof![3 => Just(0u8), 1 => Just(32u8), 3 => Just(64u8), 2 => Just(128u8), 1 => Just(190u8)], any::<bool>())
+            .prop_map(|(b, off, p)| (b + off, p));
+        (
+            proptest::collection::vec(proptest::collection::vec(lit, 1..=4), 1..=10),
+            any::<u64>(),
+            0u8..4,
+            proptest::collection::vec((any::<u8>(), any::<bool>()), 0..=4),
+        )
+            .prop_map(|(clauses, seed, vtree_kind, partial)| BigCnfCase { clauses, seed, vtree_kind, partial })
+            .boxed()
+    }
+    fn run(case: &BigCnfCase, st: &mut Stats) -> CaseResult {
+        run_cnf_large(case, st)
+    }
+}
+
 pub fn property() -> Property {
     Property {
         id: "C05",
-        subs: vec![sub::<CnfCompile>(), sub::<Expr>()],
+        subs: vec![sub::<CnfCompile>(), sub::<Expr>(), sub::<CnfLarge>()],
         fuzz: vec![],
         assumptions: vec![
-            "CNFs over <= 7 variables, expressions over <= 6 variables and depth <= 5",
+            "truth-table oracle: CNFs over <= 7 variables, expressions over <= 6 variables and depth <= 5; sub-check cnf_many_variables: up to 200 variables, read on sampled and clause-falsifying assignments instead of a truth table",
             "the SDD builder's vtree covers every variable of the input (labels 0..n-1, or the dtree-derived vtree which holds exactly the mentioned variables)",
             "CNFs without clauses are not sent through DTree::from_cnf (the library asserts a dtree needs a leaf); FORCE is not used on CNFs with an empty clause",
         ],
